@@ -313,6 +313,12 @@ func assignOne(destValue reflect.Value, taken any, to string) (reflect.Value, er
 			if !valueValue.IsValid() {
 				valueValue = newInstanceByType(destValue.Type().Elem())
 				destValue.SetMapIndex(keyValue, valueValue)
+			} else if !valueValue.CanAddr() {
+				// an existing entry is read as a copy that cannot be written in place: work on an
+				// addressable copy, it is stored back under parentKey once the mapping has been assigned
+				addressable := reflect.New(valueValue.Type()).Elem()
+				addressable.Set(valueValue)
+				valueValue = addressable
 			}
 
 			if parentMap.IsValid() {
